@@ -15,12 +15,12 @@ import (
 type WFault int
 
 const (
-	WNone      WFault = iota
-	WErrOnce          // (0, err) at call k only
-	WErrSticky        // (0, err) at call k and every later call
-	WShortErr         // (m < len, io.ErrShortWrite) at call k
-	WShortNil         // (m < len, nil) at call k: a short count without an error
-	WShortOneNil      // (len-1, nil) at call k: short by exactly one byte, no error
+	WNone        WFault = iota
+	WErrOnce            // (0, err) at call k only
+	WErrSticky          // (0, err) at call k and every later call
+	WShortErr           // (m < len, io.ErrShortWrite) at call k
+	WShortNil           // (m < len, nil) at call k: a short count without an error
+	WShortOneNil        // (len-1, nil) at call k: short by exactly one byte, no error
 	nWFault
 )
 
